@@ -64,6 +64,47 @@ def through (sends : List Send) (k : SessKey) (id : Nat) : List Send :=
 def SessCoherent (sess : SessKey → Option Session) : Prop :=
   ∀ k c, sess k = some c → c.key = k
 
+/-- What session `k` must find in its queue, through subscription `s`, for publication `p`:
+    the expected EVENT if `(s, k)` is an expected pair, nothing otherwise.  (Depends on the broker
+    only through `s`, and on the session table only through `sess k`.) -/
+noncomputable def deliveryOf (sess : SessKey → Option Session) (p : Publication) (s : Sub) (k : SessKey) :
+    List Send :=
+  open Classical in
+  match sess k with
+  | some c =>
+    if s.matchesTopic p.topic = true ∧ k ∈ s.members ∧
+       ¬(c.key = p.publisher ∧ p.excludePub = true) ∧ ¬ ruledOut p.opts (sidOf c.key) c.details
+    then [⟨k, expectedEvent p s c⟩] else []
+  | none => []
+
+/-- publishing a list of publications in order, collecting all messages sent -/
+def Broker.publishAll (b : Broker) : List ((SessKey → Option Session) × Nat × Publication) → Broker × List Send
+  | [] => (b, [])
+  | (sess, now, p) :: rest =>
+    let r := b.syncPublish sess now p
+    let r' := Broker.publishAll r.1 rest
+    (r'.1, r.2 ++ r'.2)
+
+/-- publication id carried by an EVENT -/
+def Msg.eventPub? : Msg → Option Nat
+  | .event _ pub _ _ _ => some pub
+  | _ => none
+
+/-! ### C12: publisher identity -/
+
+/-- the three detail keys that reveal the publisher -/
+def isPublisherKey (key : String) : Prop :=
+  key = "publisher" ∨ key = "publisher_authid" ∨ key = "publisher_authrole"
+
+/-- Is the publisher's identity to be disclosed to recipient `r`?  Only when the publication asked
+    for it (and the realm allowed it: `p.disclose` is set by `broker.publish` only then) and the
+    recipient announced `subscriber.features.publisher_identification`.  Never for the history
+    store (`r = none`). -/
+def disclosedTo (p : Publication) (r : Option Session) : Bool :=
+  match r with
+  | some s => p.disclose && s.hasFeature RoleSubscriber FeaturePubIdent
+  | none => false
+
 /-! ### C20: broker histories and what a store must retain -/
 
 /-- One step of the broker goroutine. -/
@@ -72,6 +113,10 @@ inductive BStep where
   | subscribe (k : SessKey) (req : Nat) (topic «match» : String) (pub0 : Nat)
   | unsubscribe (k : SessKey) (req subId pub0 : Nat)
   | removeSession (k : SessKey) (pub0 : Nat)
+
+def BStep.isPublish : BStep → Bool
+  | .publish .. => true
+  | _ => false
 
 def Broker.step (b : Broker) : BStep → Broker
   | .publish sess now p => (b.syncPublish sess now p).1
